@@ -165,7 +165,29 @@ pub fn files(ctx: &Ctx) -> Stats {
         }
         if let Err((sig, msg)) = check_file(&path, &fc) {
             st.violate(&sig, format!("[{}] {}", fc.describe(), msg), fc.json());
-        } else if idx % 211 == 0 {
+        } else if idx % 4 == 0 {
+            // the same path rewritten with other records (same layout and suffix) and read again in this process
+            let mut fc2 = gen_file_case(&mut rng);
+            fc2.fastq = fc.fastq;
+            fc2.gz = fc.gz.clone();
+            fc2.suffix = fc.suffix.clone();
+            if fc2.fastq {
+                fc2.opts.wrap = None;
+                for r in fc2.recs.iter_mut() {
+                    if r.seq.is_empty() {
+                        r.seq = b"ACGT".to_vec();
+                    }
+                }
+            }
+            let path2 = materialise(&fc2, &sc, &mut rng);
+            st.class("same-path-rewritten");
+            if path2 != path {
+                st.inconclusive("rewritten file got another path".into());
+            } else if let Err((sig, msg)) = check_file(&path2, &fc2) {
+                st.violate(&format!("{}:rewritten_path", sig), format!("[{}] after rewriting the same path: {}", fc2.describe(), msg), fc2.json());
+            }
+        }
+        if idx % 211 == 0 {
             st.sample(Json::obj().set("layout", Json::s(fc.describe())).set("records", Json::u(fc.recs.len())).set("total_bases", Json::u(fc.recs.iter().map(|r| r.seq.len()).sum())));
         }
     })
